@@ -20,8 +20,8 @@ ASSUMPTIONS = [
     "temporary upload names (*.tmp) are counted, not judged",
 ]
 MONITORS = "store auditor after every step and inside a post-hook on HashFileDB.add (audits the receiving store after every add call)"
-REQUIRED_COUNTERS = ["steps", "audits_after_step", "audits_after_add", "objects_rehashed", "dir_objects_reencoded", "op/stage-dir", "op/stage-file",
-                     "op/upload-stage", "op/add", "op/transfer", "op/save", "op/migrate", "op/gc", "op/checkout", "local_mode_checks"]
+REQUIRED_COUNTERS = ["persistent_workspace_steps", "dirs_with_several_large_files", "steps", "audits_after_step", "audits_after_add", "objects_rehashed", "dir_objects_reencoded", "op/stage-dir", "op/stage-file",
+                     "op/upload-stage", "op/add", "op/transfer", "op/save", "op/migrate", "op/gc", "op/checkout", "op/pws-stage", "op/pws-edit", "op/pws-stage-only", "local_mode_checks"]
 
 
 def run_shard(ctx):
@@ -110,6 +110,11 @@ def run_shard(ctx):
                             f.write(rng.choice(pool) if rng.random() < 0.5 else gen.content(rng, big=0.03))
                         return fp
                     files, empties = gen.tree(rng, depth=rng.randrange(0, 4), fanout=3, pool_=pool, dup=0.5, odd=0.35, min_files=1)
+                    if rng.random() < 0.06:
+                        base = rng.choice([()] + sorted({k[:-1] for k in files}))
+                        for j, c in enumerate(gen.big_files(rng)):
+                            files[(*base, f"big{j}")] = c
+                        res.count("dirs_with_several_large_files")
                     gen.write_tree(p, files, empties)
                     return p
 
@@ -122,13 +127,34 @@ def run_shard(ctx):
                 for _step in range(nsteps):
                     st = rng.choice(stores)
                     odb, algo = st["odb"], st["algo"]
-                    op = rng.choice(["stage-dir", "stage-dir", "stage-file", "upload-stage", "add", "transfer", "save", "migrate", "gc", "checkout"])
+                    op = rng.choice(["stage-dir", "stage-dir", "stage-file", "upload-stage", "add", "transfer", "save", "migrate", "gc", "checkout",
+                                     "pws-stage-only", "pws-edit", "pws-stage"])
+                    if op.startswith("pws") and algo not in ("md5", "md5-dos2unix"):
+                        op = "stage-file"
                     if op == "stage-dir" and algo not in ("md5", "md5-dos2unix"):
                         op = "stage-file"
                     if op in ("upload-stage", "save") and algo != "md5":
                         op = "add"
                     rec = [op, st["name"]]
-                    if op == "stage-dir":
+                    if op.startswith("pws"):
+                        # one long-lived workspace per case: staged without transfer, edited (rotate: rename + recreate), staged again
+                        pws = os.path.join(d, "pws")
+                        if not os.path.isdir(pws):
+                            gen.write_tree(pws, {("log",): b"first generation\n", ("sub", "data"): rng.choice(pool) + b"p", ("keep",): b"keep"})
+                        if op == "pws-stage-only":
+                            build(odb, pws, fs, algo)
+                        elif op == "pws-edit":
+                            victim = rng.choice(["log", os.path.join("sub", "data")])
+                            vp = os.path.join(pws, victim)
+                            if os.path.exists(vp):
+                                os.replace(vp, vp + f".{_step}")  # the old content survives under another name
+                            with open(vp, "wb") as f:
+                                f.write(b"generation %d " % _step + gen.small_content(rng))
+                        else:
+                            _s, _m, obj, r = env.stage_and_transfer(odb, pws, algo, shallow=False)
+                            rec.append(obj.hash_info.value)
+                        res.count("persistent_workspace_steps")
+                    elif op == "stage-dir":
                         p = new_ws()
                         _s, _m, obj, r = env.stage_and_transfer(odb, p, algo, shallow=False)
                         rec.append(obj.hash_info.value)
